@@ -8,12 +8,16 @@ V=/var/tmp/verif-benign-$$; rm -rf "$V"; mkdir -p "$V"
 (cd /verif && tar --exclude=build --exclude=replays --exclude=.git -cf - .) | tar -xf - -C "$V"
 DIFFS=${*:-$(ls /verif/benign/*.diff)}
 for d in $DIFFS; do
-  S=/var/tmp/verif-benign-repo-$$; rm -rf "$S"; mkdir -p "$S"
-  (cd /repo && git archive HEAD) | tar -x -C "$S"
-  if ! (cd "$S" && git init -q . 2>/dev/null && git apply "$(readlink -f $d)" 2>/dev/null); then
-    # written against the tree before the verification hooks went in: apply to that commit
-    rm -rf "$S"; mkdir -p "$S"; (cd /repo && git archive cce84f1) | tar -x -C "$S"
-    (cd "$S" && git init -q . 2>/dev/null && git apply "$(readlink -f $d)") || { echo "$d PATCH-FAILED"; continue; }
+  D=$(readlink -f "$d")
+  S=/var/tmp/verif-benign-repo-$$; rm -rf "$S"
+  # a detached worktree of HEAD, so that a change written against an older commit can be merged (3-way)
+  git -C /repo worktree add -q --detach "$S" HEAD
+  if ! (cd "$S" && git apply "$D" 2>/dev/null) && ! (cd "$S" && git apply --3way "$D" >/dev/null 2>&1 && ! git diff --name-only --diff-filter=U | grep -q .); then
+    # does not merge: apply it to the commit it was written against; defects repaired since then are
+    # reported again on such a copy, which says nothing about the change
+    git -C /repo worktree remove --force "$S"; mkdir -p "$S"; (cd /repo && git archive cce84f1) | tar -x -C "$S"
+    (cd "$S" && git init -q . 2>/dev/null && git apply "$D") || { echo "$d PATCH-FAILED"; rm -rf "$S"; continue; }
+    echo "   (OLD-BASE: $d applied to cce84f1, not to HEAD)"
   fi
   T=$(cd "$S" && PYTHONPATH="$S" /venv/bin/python -m pytest -q -p no:cacheprovider --timeout=900 --continue-on-collection-errors 2>&1 | tail -1)
   echo "== $(basename $d) suite: $T"
@@ -24,7 +28,8 @@ for d in $DIFFS; do
       echo "$out" | grep -m3 "VIOLATION\|MACHINERY" | cut -c1-400 | sed 's/^/      /'
     fi
   done
-  rm -rf "$S"
+  git -C /repo worktree remove --force "$S" 2>/dev/null || rm -rf "$S"
 done
+git -C /repo worktree prune
 rm -rf "$V"
 echo DONE
